@@ -139,6 +139,17 @@ impl FormatTime for SystemTime {
     }
 }
 
+/// Verification hook: formats a caller-supplied instant through the same code path as
+/// `SystemTime::format_time` (which can only read the real clock).
+#[cfg(tokio_rs_tracing_verif)]
+#[doc(hidden)]
+pub fn __verif_format_system_time(
+    t: std::time::SystemTime,
+    w: &mut dyn fmt::Write,
+) -> fmt::Result {
+    write!(w, "{}", datetime::DateTime::from(t))
+}
+
 impl FormatTime for Uptime {
     fn format_time(&self, w: &mut Writer<'_>) -> fmt::Result {
         let e = self.epoch.elapsed();
